@@ -33,7 +33,7 @@ STUBS = [
 ]
 OUTSIDE = ['symlinks (excluded by the property)', 'Windows separators', 'path suffixes longer than 7 characters except the long-name shapes',
            'real file-system I/O and the ASGI _AsyncFileReader executor hop']
-BUDGET = {'quick': 300, 'thorough': 1800}
+BUDGET = {'quick': 300, 'thorough': 900}
 
 DIR = '/d'
 
